@@ -7,6 +7,7 @@ import SqfModel.Control
 import SqfModel.Pbo
 import SqfModel.Vfs
 import SqfModel.Preproc
+import SqfModel.CfgText
 import Driver.Proto
 import Std.Data.HashMap
 /-!
@@ -496,6 +497,36 @@ def verbDiag (f : List (List Nat)) : List Nat :=
       go toks
     else str "bad-kind"
 
+/-! ### cfglex / cfgast: the config text front end (`SqfModel/CfgText.lean`) -/
+
+def renderCfgTok (t : Sqf.CfgText.RawTok) : List Nat :=
+  natStr t.kind.toNat ++ str "@" ++ natStr t.line ++ str ":" ++ natStr t.col ++ str ":" ++ natStr t.off ++ str "+" ++ natStr t.text.length
+
+def verbCfgLex (f : List (List Nat)) : List Nat :=
+  joinWith [32] ((Sqf.CfgText.lexText (f.headD [])).map renderCfgTok)
+
+partial def renderCfgLit : Sqf.Cfg.Lit → List Nat
+  | .dec t => str "n:" ++ hexOf t
+  | .hex t => str "h:" ++ hexOf t
+  | .str t => str "s:" ++ hexOf t
+  | .text t => str "t:" ++ hexOf t
+  | .arr xs => str "[" ++ joinWith [44] (xs.map renderCfgLit) ++ str "]"
+
+partial def renderCfgNode : Sqf.Cfg.Node → List Nat
+  | .classDef n => str "C(" ++ hexOf n ++ str ")"
+  | .classDefExt n b => str "X(" ++ hexOf n ++ str ":" ++ hexOf b ++ str ")"
+  | .cls n body => str "K(" ++ hexOf n ++ str "){" ++ joinWith [32] (body.map renderCfgNode) ++ str "}"
+  | .clsExt n b body => str "E(" ++ hexOf n ++ str ":" ++ hexOf b ++ str "){" ++ joinWith [32] (body.map renderCfgNode) ++ str "}"
+  | .del n => str "D(" ++ hexOf n ++ str ")"
+  | .field n v => str "F(" ++ hexOf n ++ str "=" ++ renderCfgLit v ++ str ")"
+  | .fieldArr n v => str "A(" ++ hexOf n ++ str "=" ++ renderCfgLit v ++ str ")"
+  | .fieldArrAppend n v => str "P(" ++ hexOf n ++ str "=" ++ renderCfgLit v ++ str ")"
+
+def verbCfgAst (f : List (List Nat)) : List Nat :=
+  match Sqf.CfgText.parseText (f.headD []) with
+  | none => str "fail"
+  | some ns => if ns.isEmpty then str "ok" else str "ok " ++ joinWith [32] (ns.map renderCfgNode)
+
 def handle (e : Env) (verb : String) (f : List (List Nat)) : List Nat :=
   if verb == "asm" then verbAsm e f
   else if verb == "lex" then verbLex f
@@ -511,6 +542,8 @@ def handle (e : Env) (verb : String) (f : List (List Nat)) : List Nat :=
   else if verb == "vfs" then verbVfs f
   else if verb == "pp" then verbPp f
   else if verb == "diag" then verbDiag f
+  else if verb == "cfglex" then verbCfgLex f
+  else if verb == "cfgast" then verbCfgAst f
   else str "bad-verb"
 
 partial def loop (e : Env) (h : IO.FS.Stream) (out : IO.FS.Stream) : IO Unit := do
